@@ -12,8 +12,7 @@
     What is proved here is the second sentence of the property: every
     failure is surfaced, as a returned error or as a transition to an
     error-handling node whose bindings carry the diagnostics. *)
-From Sheens Require Import Model.Step Spec.WalkSpec Proofs.StepFacts Proofs.EngineFacts Proofs.WalkProofs
-     Proofs.SndMatchSound Proofs.MatchTerminates.
+From Sheens Require Import Model.Step Spec.WalkSpec Proofs.StepFacts Proofs.EngineFacts Proofs.WalkProofs.
 
 Section C07.
 Variable action : Type.
@@ -78,6 +77,7 @@ Proof.
 Qed.
 End C07.
 
+From Sheens Require Import Proofs.MatchTerminates.
 (** the matcher terminates on EVERY pattern, message and bindings - variable
     names inside messages and inside bound values included (after the D6
     repair) - within a fuel that is linear in the depths involved, for every
